@@ -45,7 +45,13 @@ def extract_dtype(v, vops: list[Any]):
     is_real = isinstance(v, (ufl.classes.Real, ufl.classes.Imag))
     if is_real:
         return L.DataType.REAL
-    return L.merge_dtypes(dtypes)
+    dtype = L.merge_dtypes(dtypes)
+    if dtype == L.DataType.INT:
+        # The value of a UFL expression is a real number even when all operands
+        # are integer literals: an int temporary would make conditional(c, 1, 3) / 2
+        # an integer division and truncate sqrt(conditional(c, 2, 3))
+        dtype = L.DataType.REAL
+    return dtype
 
 
 class IntegralGenerator:
